@@ -179,6 +179,8 @@ def placements(chrom, ntiles, tail_len):
             out.append((chrom, t * W + W - 3, t * W + W + 3))                # straddling two tiles
     out.append((chrom, L - 4, L + 5))                        # partly off the chromosome end
     out.append((chrom, 0, 3))                                # window would start before 0
+    out.append((chrom, -3, 4))                               # hangs over the chromosome start (summit minus flank): still touches tile 0
+    out.append((chrom, -W - 2, 3))                           # starts more than a tile before the chromosome
     return out
 
 
@@ -291,7 +293,8 @@ def run_match(rec, sh, tier, seed):
         for gi, tail_tiles in enumerate(itertools.product(pal, repeat=rest)):
             tiles = list(sh["first"]) + list(tail_tiles)
             tail = ("", "ACGTA")[gi % 2]
-            chroms = [("cA", tiles, tail), ("cB", ["g5", "g0", "g10", "q5"], "AC")]
+            # "cAa": a scaffold shorter than one window that sorts between the two chromosomes (it holds no tile)
+            chroms = [("cA", tiles, tail), ("cAa", [], "ACG"), ("cB", ["g5", "g0", "g10", "q5"], "AC")]
             fa, bw, seqs, sigs = write_genome(d, chroms, "m")
             pl = placements("cA", K, len(tail))
             lsets = [(p,) for p in pl] + list(itertools.combinations(pl, 2))
@@ -300,6 +303,8 @@ def run_match(rec, sh, tier, seed):
             if tier != "quick" and gi % 7 == 0:
                 lsets += list(itertools.combinations(pl[::2], 3))
             lsets.append((("cB", 3, 8), pl[0]))
+            lsets.append((("cAa", 0, 3), ("cB", 3, 8), pl[0]))
+            lsets.append((pl[1], ("cAa", 1, 2), ("cB", 13, 18)))
             for li, lset in enumerate(lsets):
                 # one configuration per (genome, locus set), cycling through the configuration grid so that the grid is
                 # covered many times over the enumeration (every configuration meets every genome class)
